@@ -230,12 +230,19 @@ impl Shared {
     self.seq.set(v);
     v
   }
+  /// slot % 100 selects a published key id (or a never-issued one); slot / 100 selects a variant of it that was
+  /// never issued although it resembles an issued id: 1 = the id with a suffix, 2 = the id without its last character.
   fn key_for_slot(&self, slot: usize) -> String {
     let pool = self.pool.borrow();
-    if slot < pool.len() {
-      pool[slot].clone()
+    let (base, variant) = (slot % 100, slot / 100);
+    if base < pool.len() {
+      match variant {
+        1 => format!("{}-v2", pool[base]),
+        2 => pool[base][..pool[base].len() - 1].to_owned(),
+        _ => pool[base].clone(),
+      }
     } else {
-      format!("neverissued{:021}", slot)
+      format!("neverissued{:021}", base)
     }
   }
 }
@@ -652,6 +659,11 @@ fn linearizable(events: &[&Event], budget: &mut u64) -> Option<bool> {
   go(events, all, &ObjState::Absent, &mut memo, budget)
 }
 
+fn draw_slot(n_slots: usize) -> usize {
+  let base = ctx::choose(n_slots);
+  base + 100 * ctx::weighted(&[10, 1, 1])
+}
+
 fn gen_op(n_slots: usize, n_digests: usize, invalid_bias: u32) -> Op {
   match ctx::weighted(&[5, 3, 6, 4, 3, 5, 4, 3]) {
     0 => {
@@ -691,7 +703,7 @@ fn gen_op(n_slots: usize, n_digests: usize, invalid_bias: u32) -> Op {
       }
     }
     2 => Op::Sign {
-      slot: ctx::choose(n_slots),
+      slot: draw_slot(n_slots),
       pk: if ctx::chance(invalid_bias, 8) {
         match ctx::choose(4) {
           0 => PkKind::OtherKeysPublic,
@@ -704,10 +716,10 @@ fn gen_op(n_slots: usize, n_digests: usize, invalid_bias: u32) -> Op {
       },
     },
     3 => Op::Delete {
-      slot: ctx::choose(n_slots),
+      slot: draw_slot(n_slots),
     },
     4 => Op::Exists {
-      slot: ctx::choose(n_slots),
+      slot: draw_slot(n_slots),
     },
     5 => Op::InsertKeyId {
       digest: ctx::choose(n_digests),
